@@ -11,6 +11,7 @@ from .. import lib, ref, tokdecode as td, tokspace as ts
 from ..ref import Graph
 
 LEVEL = "exploration"
+TECHNIQUE = 'runtime monitoring: an independent decoder configured only from tokenizer parameters is the reference model for every observed token stream; region-exhaustive over 9x216 adjacency and 9x1008 path configurations plus a measured pairwise-covering and random set of full tokenizers'
 RULE = ("region-exhaustive: all 9x216 coordinate x adjacency-list configurations and all 9x1008 coordinate x path configurations "
         "through the element-level to_tokens(maze, coord_tokenizer) on several mazes each (trees, cyclic, percolation with isolated "
         "cells; solutions with forks on/off the route, turns, one and two cells, long); full tokenizers: a pairwise covering array "
